@@ -1122,13 +1122,13 @@ void process_io () {
           if (g_console_queue)
             {
               /* all_users slot #0 is reserved for the console user */
-              interactive_t *console_ip = all_users[0];
+              interactive_t *console_ip = all_users ? all_users[0] : NULL;
               if (!console_ip)
                 {
                   /* Console user disconnected - reconnect first */
                   opt_trace(TT_COMM|1, "Console user re-connecting\n");
                   init_console_user(1);
-                  console_ip = all_users[0];
+                  console_ip = all_users ? all_users[0] : NULL;
                 }
               
               /* Drain all pending lines from queue (always null-terminated) */
@@ -1210,8 +1210,9 @@ void process_io () {
         }
     }
   
-  /* Flush console user output if connected (console is always writable) */
-  if (all_users[0])
+  /* Flush console user output if connected (console is always writable).
+   * The connection table does not exist before the first connection. */
+  if (all_users && all_users[0])
     flush_message (all_users[0]);
   /*
   for (i = 1; i < max_users; i++) {
